@@ -15,7 +15,7 @@ def id_coding(seed):
     return variants[seed % len(variants)]
 
 
-def prov_pgmat(n, chrom_sizes, xoprob, seed=0, taxa=None, taxa_grp=None):
+def prov_pgmat(n, chrom_sizes, xoprob, seed=0, taxa=None, taxa_grp=None, group=True, vperm=None, drop=()):
     """Phased matrix (2,n,m) whose cell value encodes (phase, taxon, marker) uniquely.
     Returns (pgmat, decode) with decode[value] = (phase, taxon, marker)."""
     from pybrops.popgen.gmat.DensePhasedGenotypeMatrix import DensePhasedGenotypeMatrix
@@ -34,8 +34,7 @@ def prov_pgmat(n, chrom_sizes, xoprob, seed=0, taxa=None, taxa_grp=None):
     chrgrp = numpy.repeat(numpy.arange(1, len(chrom_sizes) + 1), chrom_sizes).astype("int64")
     phypos = numpy.concatenate([numpy.arange(1, c + 1) * 10 for c in chrom_sizes]).astype("int64")
     genpos = numpy.concatenate([numpy.arange(c) * 0.25 for c in chrom_sizes]).astype("float64")
-    pg = DensePhasedGenotypeMatrix(
-        mat=mat,
+    fields = dict(
         taxa=numpy.array([f"P{t}" for t in range(n)], dtype=object) if taxa is None else taxa,
         taxa_grp=numpy.arange(n, dtype="int64")[::-1].copy() if taxa_grp is None else taxa_grp,
         vrnt_chrgrp=chrgrp,
@@ -46,7 +45,20 @@ def prov_pgmat(n, chrom_sizes, xoprob, seed=0, taxa=None, taxa_grp=None):
         vrnt_hapgrp=numpy.arange(m, dtype="int64"),
         vrnt_mask=numpy.array([j % 2 == 0 for j in range(m)], dtype=bool),
     )
-    pg.group_vrnt()
+    if vperm is not None:
+        # store the variant columns in a non-sorted order (labels move with their data; xoprob stays
+        # positional: entry j is the crossover probability in front of stored column j)
+        vperm = list(vperm)
+        mat = numpy.ascontiguousarray(mat[:, :, vperm])
+        decode = {int(mat[p, t, j]): (p, t, j) for p in range(2) for t in range(n) for j in range(m)}
+        for k in ("vrnt_chrgrp", "vrnt_phypos", "vrnt_name", "vrnt_genpos", "vrnt_hapgrp", "vrnt_mask"):
+            fields[k] = fields[k][vperm].copy()
+    for k in drop:
+        fields[k] = None
+    pg = DensePhasedGenotypeMatrix(mat=mat, **fields)
+    if group:
+        pg.group_vrnt()
+        decode = {int(pg.mat[p, t, j]): (p, t, j) for p in range(2) for t in range(n) for j in range(m)}
     return pg, decode
 
 
